@@ -4,6 +4,19 @@ import json, os, sys
 sys.path.insert(0, os.path.dirname(os.path.abspath(__file__)))
 import props
 
+def human(n):
+    if n >= 1000000:
+        return ("%.1fM" % (n / 1e6)).replace(".0M", "M")
+    if n >= 1000:
+        return ("%.1fk" % (n / 1e3)).replace(".0k", "k")
+    return str(n)
+
+
+def fill_counts(p):
+    """{q}/{t} in a level text = the case budgets of the two tiers (so the text cannot go stale)"""
+    return p["level_text"].replace("{q}", human(p["quick"].get("cases", 0))).replace("{t}", human(p["thorough"].get("cases", 0)))
+
+
 VERIF = os.path.dirname(os.path.dirname(os.path.abspath(__file__)))
 all_ids = [json.loads(l)["id"] for l in open(os.path.join(VERIF, "properties.jsonl"))]
 checks = []
@@ -18,7 +31,7 @@ for pid in all_ids:
         "evidence_file": "/verif/evidence/%s.json" % pid,
         "replay_cmd_template": "./check %s --replay {path}" % pid,
         "engine": p.get("engine", "rapidcheck-choice-sequences"),
-        "level_claimed": {"category": p["level"], "text": p["level_text"], "design_ref": p.get("design_ref", "DESIGN.md section 7, " + pid)},
+        "level_claimed": {"category": p["level"], "text": fill_counts(p), "design_ref": p.get("design_ref", "DESIGN.md section 7, " + pid)},
         "level_note": p["level_note"],
         "technique": p["technique"],
     })
